@@ -193,7 +193,9 @@ func (b *sigBuilder) add(family string, ps []pSpec, r retSpec, feat map[string]s
 func Signature(tier string) (Family, map[string]SigExpect) {
 	b := &sigBuilder{exp: map[string]SigExpect{}}
 	kinds := ParamKinds()
-	validators := []string{"", "required", "min=1", "min=1,required", "omitempty"}
+	// besides the plain tags: tags that merely contain the text "required" (required_with=..., required_if=...) are
+	// not the `required` tag, and the order of tags must not matter
+	validators := []string{"", "required", "min=1", "min=1,required", "omitempty", "required_with=Other", "omitempty,required_if=Other 1", "required,min=1"}
 	aliases := []string{"", "x-n"}
 	plainRet := retSpec{errKind: "error"}
 	// (1) one parameter: full product
@@ -205,7 +207,7 @@ func Signature(tier string) (Family, map[string]SigExpect) {
 						continue
 					}
 					for _, v := range validators {
-						if strings.HasPrefix(v, "min") && (k.Name == "bool" || strings.HasPrefix(k.Name, "[]") || k.Name == "struct" || k.Name == "map") && tier != "thorough" {
+						if strings.Contains(v, "min") && (k.Name == "bool" || strings.HasPrefix(k.Name, "[]") || k.Name == "struct" || k.Name == "map") && tier != "thorough" {
 							continue
 						}
 						b.add("sig-1param", []pSpec{{kind: k, loc: loc, ptr: ptr, alias: al, validate: v, name: "p"}}, plainRet,
